@@ -1,6 +1,6 @@
 # V4: a second N (free) row that has entries in COLUMNS/RHS is refused
 from cvxopt.modeling import op
-open('/tmp/wt5h/C14/hunt/tmp/r4.mps','w').write('''NAME          TWON
+open('/var/tmp/fz/r4.mps','w').write('''NAME          TWON
 ROWS
  N  COST
  N  FREEROW
@@ -14,5 +14,5 @@ ENDATA
 ''')
 lp = op()
 try:
-    lp.fromfile('/tmp/wt5h/C14/hunt/tmp/r4.mps'); print(lp)
+    lp.fromfile('/var/tmp/fz/r4.mps'); print(lp)
 except Exception as e: print('fromfile raised', type(e).__name__, e)
